@@ -183,9 +183,53 @@ func (w *World) threshold() base.Threshold {
 	return base.Threshold(float64(w.R.Range(670, 1000)) / 10)
 }
 
-func (w *World) INITVoteproof(fact isaac.INITBallotFact) isaac.INITVoteproof {
+// mixedINIT / mixedACCEPT: sign facts of the voters for `fact`, one of them (position pos; -1: random position
+// incl. the first, or none one time in three) voting for another fact of the same point.  The majority keeps
+// len(voters)-1 votes: with >= 4 voters that is >= 67%.
+func (w *World) minorityPos(n, pos int) int {
+	switch {
+	case n < 3:
+		return -1
+	case pos >= 0:
+		return pos % n
+	case w.R.Chance(1, 3):
+		return -1
+	default:
+		return w.R.Intn(n)
+	}
+}
+
+func (w *World) mixedINIT(fact isaac.INITBallotFact, voters []isaac.LocalNode, pos int) []base.BallotSignFact {
+	sfs := w.initSignFacts(fact, voters)
+	if j := w.minorityPos(len(voters), pos); j >= 0 {
+		other := isaac.NewINITBallotFact(fact.Point().Point, w.Hash(), w.Hash(), fact.ExpelFacts())
+		sfs[j] = w.initSignFacts(other, voters[j:j+1])[0]
+	}
+	return sfs
+}
+
+func (w *World) mixedACCEPT(fact isaac.ACCEPTBallotFact, voters []isaac.LocalNode, pos int) []base.BallotSignFact {
+	sfs := w.acceptSignFacts(fact, voters)
+	if j := w.minorityPos(len(voters), pos); j >= 0 {
+		other := isaac.NewACCEPTBallotFact(fact.Point().Point, w.Hash(), w.Hash(), fact.ExpelFacts())
+		sfs[j] = w.acceptSignFacts(other, voters[j:j+1])[0]
+	}
+	return sfs
+}
+
+func (w *World) mixedThreshold(n int) base.Threshold {
+	if n >= 4 {
+		return base.Threshold(67) // n-1 of n votes reach it for every n >= 4
+	}
+	return base.Threshold(51)
+}
+
+func (w *World) INITVoteproof(fact isaac.INITBallotFact) isaac.INITVoteproof { return w.INITVoteproofAt(fact, -1) }
+
+// INITVoteproofAt: majority voteproof with the minority vote at position pos (-1 random / none).
+func (w *World) INITVoteproofAt(fact isaac.INITBallotFact, pos int) isaac.INITVoteproof {
 	vp := isaac.NewINITVoteproof(fact.Point().Point)
-	vp.SetMajority(fact).SetSignFacts(w.initSignFacts(fact, w.Locals)).SetThreshold(w.threshold()).Finish()
+	vp.SetMajority(fact).SetSignFacts(w.mixedINIT(fact, w.Locals, pos)).SetThreshold(w.mixedThreshold(len(w.Locals))).Finish()
 	return vp
 }
 
@@ -195,14 +239,23 @@ func (w *World) INITVoteproofDraw(point base.Point) isaac.INITVoteproof {
 	f1 := isaac.NewINITBallotFact(point, w.Hash(), w.Hash(), nil)
 	f2 := isaac.NewINITBallotFact(point, w.Hash(), w.Hash(), nil)
 	sfs := append(w.initSignFacts(f1, w.Locals[:h]), w.initSignFacts(f2, w.Locals[h:])...)
+	if w.R.Bool() { // a third fact
+		f3 := isaac.NewINITBallotFact(point, w.Hash(), w.Hash(), nil)
+		j := w.R.Intn(len(sfs))
+		sfs[j] = w.initSignFacts(f3, w.Locals[j:j+1])[0]
+	}
 	vp := isaac.NewINITVoteproof(point)
 	vp.SetSignFacts(sfs).SetThreshold(w.threshold()).Finish()
 	return vp
 }
 
 func (w *World) ACCEPTVoteproof(fact isaac.ACCEPTBallotFact) isaac.ACCEPTVoteproof {
+	return w.ACCEPTVoteproofAt(fact, -1)
+}
+
+func (w *World) ACCEPTVoteproofAt(fact isaac.ACCEPTBallotFact, pos int) isaac.ACCEPTVoteproof {
 	vp := isaac.NewACCEPTVoteproof(fact.Point().Point)
-	vp.SetMajority(fact).SetSignFacts(w.acceptSignFacts(fact, w.Locals)).SetThreshold(w.threshold()).Finish()
+	vp.SetMajority(fact).SetSignFacts(w.mixedACCEPT(fact, w.Locals, pos)).SetThreshold(w.mixedThreshold(len(w.Locals))).Finish()
 	return vp
 }
 
@@ -220,7 +273,7 @@ func (w *World) INITExpelVoteproof(point base.Point, k int) (isaac.INITExpelVote
 	facts, ops, voters := w.Expels(point.Height(), k)
 	fact := isaac.NewINITBallotFact(point, w.Hash(), w.Hash(), facts)
 	vp := isaac.NewINITExpelVoteproof(point)
-	vp.SetMajority(fact).SetSignFacts(w.initSignFacts(fact, voters)).SetThreshold(w.threshold())
+	vp.SetMajority(fact).SetSignFacts(w.mixedINIT(fact, voters, -1)).SetThreshold(w.threshold())
 	vp.SetExpels(ops)
 	vp.Finish()
 	return vp, fact, ops
@@ -230,7 +283,7 @@ func (w *World) ACCEPTExpelVoteproof(point base.Point, k int) isaac.ACCEPTExpelV
 	facts, ops, voters := w.Expels(point.Height(), k)
 	fact := isaac.NewACCEPTBallotFact(point, w.Hash(), w.Hash(), facts)
 	vp := isaac.NewACCEPTExpelVoteproof(point)
-	vp.SetMajority(fact).SetSignFacts(w.acceptSignFacts(fact, voters)).SetThreshold(w.threshold())
+	vp.SetMajority(fact).SetSignFacts(w.mixedACCEPT(fact, voters, -1)).SetThreshold(w.threshold())
 	vp.SetExpels(ops)
 	vp.Finish()
 	return vp
@@ -240,7 +293,7 @@ func (w *World) INITStuckVoteproof(point base.Point, k int) isaac.INITStuckVotep
 	facts, ops, voters := w.Expels(point.Height(), k)
 	fact := isaac.NewINITBallotFact(point, w.Hash(), w.Hash(), facts)
 	vp := isaac.NewINITStuckVoteproof(point)
-	vp.SetSignFacts(w.initSignFacts(fact, voters)).SetMajority(fact)
+	vp.SetSignFacts(w.mixedINIT(fact, voters, -1)).SetMajority(fact)
 	vp.SetExpels(ops)
 	vp.Finish()
 	return vp
@@ -250,7 +303,7 @@ func (w *World) ACCEPTStuckVoteproof(point base.Point, k int) isaac.ACCEPTStuckV
 	facts, ops, voters := w.Expels(point.Height(), k)
 	fact := isaac.NewACCEPTBallotFact(point, w.Hash(), w.Hash(), facts)
 	vp := isaac.NewACCEPTStuckVoteproof(point)
-	vp.SetSignFacts(w.acceptSignFacts(fact, voters)).SetMajority(fact)
+	vp.SetSignFacts(w.mixedACCEPT(fact, voters, -1)).SetMajority(fact)
 	vp.SetExpels(ops)
 	vp.Finish()
 	return vp
